@@ -10,6 +10,8 @@ let () =
     | "lower" -> Mlevel_cmd.run_lower
     | "msolve" -> Mlevel_cmd.run_msolve
     | "mspell" -> Mlevel_cmd.run_mspell
+    | "rlower" -> Mroutes_cmd.run_rlower
+    | "rsolve" -> Mroutes_cmd.run_rsolve
     | "lp" -> Lp_cmd.run_case
     | "fi" -> Fi_cmd.run_case_fi
     | "ctxf" -> Fi_cmd.run_case_ctxf
